@@ -19,6 +19,7 @@ pub struct BigUint {
 //@ include prelude/biguint_view.rs
 impl BigUint {
 //@ stub u_core/normalize
+//@ stub u_core/clone
 }
 
 impl BitAndAssignSpecImpl<&BigUint> for BigUint {
@@ -197,6 +198,99 @@ impl BitXorAssign<&BigUint> for BigUint {
             }
         }
 //+}
+    }
+//@ end
+}
+
+impl BitAndSpecImpl<&BigUint> for BigUint {
+    open spec fn obeys_bitand_spec() -> bool { false }
+    open spec fn bitand_req(self, rhs: &BigUint) -> bool { true }
+    open spec fn bitand_spec(self, rhs: &BigUint) -> BigUint { arbitrary() }
+}
+impl BitAnd<&BigUint> for BigUint {
+    type Output = BigUint;
+//@ extract src/biguint/bits.rs :: impl BitAnd<&BigUint> for BigUint :: fn bitand rules=R0,R5 props=C07,C10 label=bitand_val_ref
+    fn bitand(self, other: &BigUint) -> /*+*/(r: /*-*/BigUint/*+*/)/*-*/
+//+{
+        ensures r.wf(),
+            forall|i: int| 0 <= i ==> dig(r.dg(), i) == dig(self.dg(), i) & dig(other.dg(), i),
+//+}
+    {
+        let mut self__ = self;
+        self__ &= other;
+        self__
+    }
+//@ end
+}
+
+impl BitAndSpecImpl<&BigUint> for &BigUint {
+    open spec fn obeys_bitand_spec() -> bool { false }
+    open spec fn bitand_req(self, rhs: &BigUint) -> bool { true }
+    open spec fn bitand_spec(self, rhs: &BigUint) -> BigUint { arbitrary() }
+}
+impl BitAnd<&BigUint> for &BigUint {
+    type Output = BigUint;
+//@ extract src/biguint/bits.rs :: impl BitAnd<&BigUint> for &BigUint :: fn bitand rules=R0,R3ca props=C07,C10 label=bitand_ref_ref
+    fn bitand(self, other: &BigUint) -> /*+*/(r: /*-*/BigUint/*+*/)/*-*/
+//+{
+        ensures r.wf(),
+            forall|i: int| 0 <= i ==> dig(r.dg(), i) == dig(self.dg(), i) & dig(other.dg(), i),
+//+}
+    {
+//+{
+        proof { assert forall|i: int| 0 <= i implies dig(other.dg(), i) & dig(self.dg(), i) == dig(self.dg(), i) & dig(other.dg(), i) by {
+            let x = dig(other.dg(), i); let y = dig(self.dg(), i);
+            assert(x & y == y & x) by (bit_vector);
+        } }
+//+}
+        // forward to val-ref, choosing the smaller to clone
+        if self.data.len() <= other.data.len() {
+            BitAnd::bitand(self.clone(), other)
+        } else {
+            BitAnd::bitand(other.clone(), self)
+        }
+    }
+//@ end
+}
+
+impl BitOrSpecImpl<&BigUint> for BigUint {
+    open spec fn obeys_bitor_spec() -> bool { false }
+    open spec fn bitor_req(self, rhs: &BigUint) -> bool { self.wf() && rhs.wf() }
+    open spec fn bitor_spec(self, rhs: &BigUint) -> BigUint { arbitrary() }
+}
+impl BitOr<&BigUint> for BigUint {
+    type Output = BigUint;
+//@ extract src/biguint/bits.rs :: impl BitOr<&BigUint> for BigUint :: fn bitor rules=R0,R5 props=C07,C10 label=bitor_val_ref
+    fn bitor(self, other: &BigUint) -> /*+*/(r: /*-*/BigUint/*+*/)/*-*/
+//+{
+        ensures r.wf(),
+            forall|i: int| 0 <= i ==> dig(r.dg(), i) == dig(self.dg(), i) | dig(other.dg(), i),
+//+}
+    {
+        let mut self__ = self;
+        self__ |= other;
+        self__
+    }
+//@ end
+}
+
+impl BitXorSpecImpl<&BigUint> for BigUint {
+    open spec fn obeys_bitxor_spec() -> bool { false }
+    open spec fn bitxor_req(self, rhs: &BigUint) -> bool { true }
+    open spec fn bitxor_spec(self, rhs: &BigUint) -> BigUint { arbitrary() }
+}
+impl BitXor<&BigUint> for BigUint {
+    type Output = BigUint;
+//@ extract src/biguint/bits.rs :: impl BitXor<&BigUint> for BigUint :: fn bitxor rules=R0,R5 props=C07,C10 label=bitxor_val_ref
+    fn bitxor(self, other: &BigUint) -> /*+*/(r: /*-*/BigUint/*+*/)/*-*/
+//+{
+        ensures r.wf(),
+            forall|i: int| 0 <= i ==> dig(r.dg(), i) == dig(self.dg(), i) ^ dig(other.dg(), i),
+//+}
+    {
+        let mut self__ = self;
+        self__ ^= other;
+        self__
     }
 //@ end
 }
